@@ -16,7 +16,7 @@ from ref import wire
 
 PROPERTY = 'C18'
 META = {
-    'bounds': 'plaintext streams of 12 bytes per direction (thorough 40) with '
+    'bounds': 'plaintext streams of 12 bytes per direction (thorough 32; one 4096-byte single write with unsegmented reads) with '
               'symbolic content; the partition of the sent stream into '
               'send() calls is enumerated (all compositions of 12 into <= 3 '
               'parts quick, <= 4 thorough), the partition of the received '
@@ -162,17 +162,20 @@ def channel(ctx, n=12, sends=None, read_sizes=None, sentinel=False,
     stream = netenv.Stream(in_cipher if sym else bytes(in_cipher),
                            whole=whole)
     rfile = enc.EncryptedFileObjectWrapper(stream, decryptor)
-    got = []
+    # what was read is accumulated as a rope: adjacent slices of the
+    # plaintext merge symbolically, so the lengths of the individual reads
+    # stay symbolic (no fork per possible length)
+    acc = models.Rope([])
     for want in read_sizes:
-        chunk = rfile.read(want)
-        got += list(bytes_items(chunk))
+        acc = acc + models.Rope.of(rfile.read(want))
     # drain
     guard = 0
     while not stream.at_end():
-        got += list(bytes_items(rfile.read(n)))
+        acc = acc + models.Rope.of(rfile.read(n))
         guard += 1
         if guard > 4 * n:
             raise core.Unwind('drain')
+    got = list(acc.flat().items)
     conds.append(items_eq(got, bytes_items(in_plain)))
     note_key(ctx, 'C18:channel')
     return z3.And(*conds)
@@ -367,9 +370,9 @@ def instances(tier, seed):
                                         'read_sizes': rs}, W=64,
                             budget_s=900, witness_every=2))
     if tier == 'thorough':
-        out.append(Instance('channel:40', 'channel',
-                            {'n': 40, 'sends': [1, 16, 23],
-                             'read_sizes': [7, 40]}, W=64, budget_s=1800,
+        out.append(Instance('channel:32', 'channel',
+                            {'n': 32, 'sends': [1, 15, 16],
+                             'read_sizes': [32]}, W=64, budget_s=3000,
                             witness_every=5))
     for tl in (1, 4, 16, 64):
         out.append(Instance('secrets:%d' % tl, 'secrets', {'token_len': tl},
